@@ -6,7 +6,9 @@ R1 cartesian product: in every `combine` that calls `self._product`, each `_prod
    depth / propagate flag), is evaluated for the arriving (port, token) and every schema it produces is
    yielded; `CartesianProductCombinator._product` keys on the tag minus `depth` components, is guarded by
    `len(self._token_values[tag]) == len(self.items)` (branch facts: the product lies in the region reached only through the
-   edge of a dominating test that implies the equality -- nested `if`, guard clause, `!=`, conjunction, flag local), builds the product with the arriving port replaced by
+   edge of a dominating test that implies the equality -- nested `if`, guard clause, `!=`, conjunction, flag local; an operand
+   held in a temporary `n = len(...)` is read through its single reaching definition, provided nothing between the assignment
+   and the test can change it: `_fresh_temp` -- a stale, re-bound or foreign temporary is not resolved and the rule fires), builds the product with the arriving port replaced by
    the singleton `[token]` and every other port by its full list, yields once per combination and retags with
    <own prefix> + <last component of every member>; `_add_to_port` refuses a token whose tag is already
    present (loop with early exit or `any` / `all` over the port list; the port list is `tag_values[port]` or
@@ -130,12 +132,87 @@ def _tv_at_alias(f, e, key=None) -> bool:
     return one(e) or (isinstance(e, ast.Name) and all_origins(f, e, one))
 
 
+PURE_BUILTINS = {"len", "str", "int", "repr", "bool", "isinstance", "id", "type"}
+
+
+def _quiet_between(f, g, d_id, u_id, value) -> bool:
+    """No CFG node that can execute between the definition node `d_id` and the use node `u_id` can change what `value`
+    denotes: none suspends (await / yield: another task may file tokens), stores into / deletes an attribute or an item,
+    re-binds a name read by `value`, calls a method of `self` or of a local object, or hands a local object (or `self`) to a call.
+    Calls rooted at module-level names (`logger.debug(f'...')`) with constant / formatted / attribute-read arguments and
+    pure builtins are allowed.  Conservative: anything else makes the temporary opaque (the caller's recogniser then fails)."""
+    from ..dataflow import defs_of
+
+    names = {x.id for x in ast.walk(value) if isinstance(x, ast.Name)}
+
+    def local(name):
+        return name == "self" or bool(defs_of(f, name))
+
+    def root(x):
+        while isinstance(x, (ast.Attribute, ast.Subscript)):
+            x = x.value
+        return x
+
+    def bare_local(arg):
+        for x in ast.walk(arg):
+            if isinstance(x, ast.Name) and local(x.id):
+                par = parent(x)
+                if isinstance(par, ast.Attribute) and par.value is x and not isinstance(parent(par), ast.Call):
+                    continue  # `self.name`: an attribute read
+                if any(isinstance(a, ast.FormattedValue) for a in ancestors(x)):
+                    continue
+                return True
+        return False
+
+    fwd = g.reach([d_id], avoid=[u_id]) - {d_id, u_id}
+    between = [n for n in fwd if g.path(n, [u_id], avoid=[d_id]) is not None]
+    for nid in between:
+        for x in g.nodes[nid].walk():
+            if isinstance(x, (ast.Await, ast.Yield, ast.YieldFrom)):
+                return False
+            if isinstance(x, (ast.Attribute, ast.Subscript)) and isinstance(x.ctx, (ast.Store, ast.Del)):
+                return False
+            if isinstance(x, ast.Name) and isinstance(x.ctx, (ast.Store, ast.Del)) and x.id in names:
+                return False
+            if isinstance(x, ast.Call):
+                r = root(x.func)
+                if isinstance(x.func, ast.Name) and x.func.id in PURE_BUILTINS and not local(x.func.id):
+                    continue
+                if not isinstance(r, ast.Name) or local(r.id):
+                    return False
+                if any(bare_local(a) for a in list(x.args) + [k.value for k in x.keywords]):
+                    return False
+    return True
+
+
+def _fresh_temp(f, x, depth=3):
+    """An operand of a test read through its reaching definition (`n = len(m); if n == ...` for `if len(m) == ...`): a local
+    with exactly one reaching definition -- a plain, un-indexed assignment whose node dominates the use -- denotes the assigned
+    expression, provided nothing between the assignment and the use can change its value (`_quiet_between`).  Any other
+    operand is returned unchanged: a stale / ambiguous temporary is NOT resolved, so the recogniser that needed it fails."""
+    from ..dataflow import reaching_defs
+
+    g = f.cfg
+    while depth and isinstance(x, ast.Name):
+        ds = reaching_defs(f, x.id, x)
+        if len(ds) != 1 or ds[0].kind != "assign" or ds[0].index is not None or ds[0].stmt is None or ds[0].value is None:
+            break
+        dn, un = g.ids_of(ds[0].stmt), g.node_containing(x)
+        if len(dn) != 1 or len(un) != 1 or dn[0] == un[0] or not g.dominates(dn[0], un[0]):
+            break
+        v = strip_cast(ds[0].value)
+        if isinstance(ds[0].value, ast.Await) or not _quiet_between(f, g, dn[0], un[0], v):
+            break
+        x, depth = v, depth - 1
+    return x
+
+
 def _len_items_cmp(f, e, tag_pred) -> bool:
     """`e` compares `len(self._token_values[<tag>])` with `len(self.items)` (either order, any single operator; the port
     map may be held in a local)."""
     if not (isinstance(e, ast.Compare) and len(e.ops) == 1):
         return False
-    a, b = e.left, e.comparators[0]
+    a, b = _fresh_temp(f, e.left), _fresh_temp(f, e.comparators[0])
 
     def is_tv(x):
         return is_len_of(x, lambda y: any_origin(f, y, lambda o: _tv_at(o, tag_pred)))
@@ -1859,6 +1936,24 @@ VARIANTS = [
       "        if not len(self._token_values[tag]) != len(self.items):\n            continue\n        if True:", "R2"),
     V("dot: guard clause does not leave the iteration", CFILE, _DPROD, "        if len(self._token_values[tag]) == len(self.items):",
       "        if not len(self._token_values[tag]) == len(self.items):\n            pass\n        if True:", "R2"),
+    # the tested length held in a temporary (read through its single reaching definition)
+    V("benign: cartesian completeness operand in a temporary", CFILE, _CPROD, "    if len(self._token_values[tag]) == len(self.items):",
+      "    _sf_l1 = len(self._token_values[tag])\n    if _sf_l1 == len(self.items):", None),
+    V("benign: dot completeness operand in a temporary", CFILE, _DPROD, "        if len(self._token_values[tag]) == len(self.items):",
+      "        _sf_l2 = len(self._token_values[tag])\n        if _sf_l2 == len(self.items):", None),
+    V("benign: both completeness operands in temporaries, logging in between, guard clause", CFILE, _DPROD,
+      "        if len(self._token_values[tag]) == len(self.items):",
+      "        have = len(self._token_values[tag])\n        want = len(self.items)\n        logger.debug(f'{tag}: {have} of {want}')\n        pass\n"
+      "        if want != have:\n            continue\n        if True:", None),
+    V("cartesian: the tested temporary is the number of tags, not of ports", CFILE, _CPROD, "    if len(self._token_values[tag]) == len(self.items):",
+      "    _sf_l1 = len(self._token_values)\n    if _sf_l1 == len(self.items):", "R1"),
+    V("cartesian: the tested temporary is stale (a port is dropped before the test)", CFILE, _CPROD, "    if len(self._token_values[tag]) == len(self.items):",
+      "    n_ports = len(self._token_values[tag])\n    self._token_values[tag].pop(port_name, None)\n    if n_ports == len(self.items):", "R1"),
+    V("dot: the tested temporary holds the length of the first bucket only", CFILE, _DPROD,
+      "    for tag in list(self._token_values):\n        if len(self._token_values[tag]) == len(self.items):",
+      "    n_ports = len(next(iter(self._token_values.values()), {}))\n    for tag in list(self._token_values):\n        if n_ports == len(self.items):", "R2"),
+    V("dot: the tested temporary is re-bound on one path", CFILE, _DPROD, "        if len(self._token_values[tag]) == len(self.items):",
+      "        n_ports = len(self._token_values[tag])\n        if tag:\n            n_ports = len(self.items)\n        if n_ports == len(self.items):", "R2"),
     V("benign: _is_parent_tag result in a temporary", SFILE, PARENT, "    return tag.split('.')[:len(parent_idx)] == parent_idx",
       "    _sf_ret = tag.split('.')[:len(parent_idx)] == parent_idx\n    return _sf_ret", None),
     V("_is_parent_tag: result temporary holds a string-prefix test", SFILE, PARENT, "    return tag.split('.')[:len(parent_idx)] == parent_idx",
